@@ -23,6 +23,8 @@ pub enum POp {
     Default(bool),
     WdApp,
     WdDir(String),
+    /// a working directory that is not UTF-8 (legal as a path, not representable in TOML); only C07's own documents use it
+    WdBytes(Vec<u8>),
 }
 
 #[derive(Clone, Debug, PartialEq)]
@@ -119,7 +121,18 @@ pub fn plan_strategy() -> impl Strategy<Value = Vec<BOp>> {
 
 fn doc_strategy() -> impl Strategy<Value = Doc> {
     prop_oneof![
-        4 => launch_strategy().prop_map(Doc::Launch),
+        4 => (launch_strategy(), proptest::option::weighted(0.08, (any::<u16>(), prop_oneof![Just(vec![b'/', b's', 0xff]), Just(vec![0xc3]), Just(b"srv/caf\xe9".to_vec())]))).prop_map(|(mut ops, bad)| {
+            if let Some((i, bytes)) = bad {
+                let np = ops.iter().filter(|o| matches!(o, LOp::Process(_))).count();
+                if np > 0 {
+                    let k = pick_idx(i, np);
+                    if let Some(LOp::Process(p)) = ops.iter_mut().filter(|o| matches!(o, LOp::Process(_))).nth(k) {
+                        p.ops.push(POp::WdBytes(bytes));
+                    }
+                }
+            }
+            Doc::Launch(ops)
+        }),
         4 => plan_strategy().prop_map(Doc::BuildPlan),
         3 => (
             proptest::option::of((any::<bool>(), any::<bool>(), any::<bool>())),
@@ -149,6 +162,7 @@ fn proc_json(p: &Proc) -> Value {
         POp::Default(b) => json!({"default": b}),
         POp::WdApp => json!({"wd_app": true}),
         POp::WdDir(d) => json!({"wd_dir": d}),
+        POp::WdBytes(b) => json!({"wd_bytes": crate::core::bytes_to_json(b)}),
     }).collect::<Vec<_>>()})
 }
 fn strs(v: &Value) -> Vec<String> {
@@ -165,6 +179,7 @@ fn proc_from_json(v: &Value) -> Proc {
                 "args" => POp::Args(strs(x)),
                 "default" => POp::Default(x.as_bool().unwrap()),
                 "wd_app" => POp::WdApp,
+                "wd_bytes" => POp::WdBytes(crate::core::json_to_bytes(x)),
                 _ => POp::WdDir(x.as_str().unwrap().to_string()),
             }
         }).collect(),
@@ -251,17 +266,29 @@ struct MProc {
     args: Vec<String>,
     default: bool,
     wd: Option<String>, // None = app directory
+    /// the final working directory is not UTF-8: the document cannot be written
+    wd_unrepresentable: bool,
 }
 
 fn model_proc(p: &Proc) -> MProc {
-    let mut m = MProc { ty: p.ty.clone(), command: p.command.clone(), args: vec![], default: false, wd: None };
+    let mut m = MProc { ty: p.ty.clone(), command: p.command.clone(), args: vec![], default: false, wd: None, wd_unrepresentable: false };
     for o in &p.ops {
         match o {
             POp::Arg(a) => m.args.push(a.clone()),
             POp::Args(a) => m.args.extend(a.iter().cloned()),
             POp::Default(b) => m.default = *b,
-            POp::WdApp => m.wd = None,
-            POp::WdDir(d) => m.wd = Some(d.clone()),
+            POp::WdApp => {
+                m.wd = None;
+                m.wd_unrepresentable = false;
+            }
+            POp::WdDir(d) => {
+                m.wd = Some(d.clone());
+                m.wd_unrepresentable = false;
+            }
+            POp::WdBytes(_) => {
+                m.wd = None;
+                m.wd_unrepresentable = true;
+            }
         }
     }
     m
@@ -286,6 +313,9 @@ fn build_proc(p: &Proc) -> Process {
             }
             POp::WdDir(d) => {
                 b.working_directory(WorkingDirectory::Directory(PathBuf::from(d)));
+            }
+            POp::WdBytes(bytes) => {
+                b.working_directory(WorkingDirectory::Directory(PathBuf::from(<std::ffi::OsStr as std::os::unix::ffi::OsStrExt>::from_bytes(bytes))));
             }
         }
     }
@@ -348,6 +378,16 @@ fn check(ctx: &Ctx, env: &Env, d: &Doc) -> Check {
         Doc::Launch(ops) => {
             ctx.class("doc:launch");
             let (launch, model) = build_launch(ops);
+            if model.procs.iter().any(|p| p.wd_unrepresentable) {
+                // a path TOML cannot carry: refusing is the only way not to write a different document
+                ctx.class("doc:launch-with-unrepresentable-working-dir");
+                ctx.nontrivial(hash_of(&dj));
+                let _ = std::fs::remove_file(&path);
+                return match write_toml_file(&launch, &path) {
+                    Err(_) => Ok(()),
+                    Ok(()) => Err(Fail::new("C07:unrepresentable-working-dir-written", format!("a non-UTF-8 working directory was written as {:?}", std::fs::read_to_string(&path).unwrap_or_default()))),
+                };
+            }
             w(write_toml_file(&launch, &path))?;
             let (text, tv) = text_of(&path)?;
             compare_launch(&tv, &model, &text)?;
@@ -501,7 +541,7 @@ fn check(ctx: &Ctx, env: &Env, d: &Doc) -> Check {
 }
 
 pub fn run(ctx: &Ctx) {
-    ctx.set_rule("generated programs over the public builders and types: LaunchBuilder/ProcessBuilder call sequences (process, processes, label(s), slice(s), arg, args, default, working_directory in any order and multiplicity), BuildPlanBuilder sequences of provides/requires(+metadata)/or incl. leading, trailing and consecutive or, LayerContentMetadata (types None / all 8 flag combinations; generic, absent and typed metadata), Store, ExecDProgramOutput (through a helper process whose fd 3 is a file), PackageDescriptor; strings weighted towards quotes, backslashes, control characters, NUL, DEL, U+0085, U+2028, BOM, '#', '=', '[', astral characters and the empty string; metadata tables nest all TOML value kinds with arbitrary keys. Oracle: Python tomllib must parse the written text; a reader knowing only the spec's field names and defaults must recover the independently computed model; unknown keys in the output are a violation; libcnb re-reads an equal value where it can. Non-trivial: payload contains a character needing TOML escaping or metadata nested >= 2, or the builder sequence has >= 2 `or` / an empty group; distinct = hash of the program.");
+    ctx.set_rule("generated programs over the public builders and types: LaunchBuilder/ProcessBuilder call sequences (process, processes, label(s), slice(s), arg, args, default, working_directory in any order and multiplicity; in ~5% a final non-UTF-8 working directory, which must be refused), BuildPlanBuilder sequences of provides/requires(+metadata)/or incl. leading, trailing and consecutive or, LayerContentMetadata (types None / all 8 flag combinations; generic, absent and typed metadata), Store, ExecDProgramOutput (through a helper process whose fd 3 is a file), PackageDescriptor; strings weighted towards quotes, backslashes, control characters, NUL, DEL, U+0085, U+2028, BOM, '#', '=', '[', astral characters and the empty string; metadata tables nest all TOML value kinds with arbitrary keys. Oracle: Python tomllib must parse the written text; a reader knowing only the spec's field names and defaults must recover the independently computed model; unknown keys in the output are a violation; libcnb re-reads an equal value where it can. Non-trivial: payload contains a character needing TOML escaping or metadata nested >= 2, or the builder sequence has >= 2 `or` / an empty group; distinct = hash of the program.");
     ctx.assume("datetimes are restricted to local date-times/dates without fractional seconds so that their text form is reader-independent");
     let env = Env { scratch: Scratch::new("c07"), reader: RefCell::new(TomlReader::new()) };
     for (_p, v) in ctx.regress_files() {
@@ -509,7 +549,7 @@ pub fn run(ctx: &Ctx) {
         ctx.check_case("regress", check(ctx, &env, &d), || v["case"].clone());
     }
     let _ = pick_idx(0, 1);
-    ctx.run_prop("documents", doc_strategy(), ctx.tier.pick(4000, 100_000), doc_json, |d| check(ctx, &env, d));
+    ctx.run_prop("documents", doc_strategy(), ctx.tier.pick(12_000, 100_000), doc_json, |d| check(ctx, &env, d));
 }
 
 pub fn replay(ctx: &Ctx, _sub: &str, case: &Value) {
@@ -581,6 +621,7 @@ pub fn compare_launch(tv: &TV, m: &LaunchModel, text: &str) -> Check {
                 Some(TV::Str(s)) => Some(s.clone()),
                 Some(_) => return Err(Fail::new("C07:wrong-kind", "working-dir not a string")),
             },
+            wd_unrepresentable: false,
         };
         ensure!(t.get("command").is_some(), "C07:launch-process-differs", "command key missing\n{text}");
         // an explicit "." working-dir denotes the app directory as well (relative to the app dir)
